@@ -475,6 +475,11 @@ void DocumentBuilder::proc_instance_line() { currentInstanceLine = &currentTempl
  */
 void DocumentBuilder::instance_name(const char* name, bool templ)
 {
+    if (currentTemplate == nullptr || currentInstanceLine == nullptr) {
+        // the instance-line syntax can be parsed on its own (S_INSTANCE_LINE), outside an LSC template
+        handle_error(TypeException{"$Instance_line_must_be_declared_inside_an_LSC_template"});
+        return;
+    }
     symbol_t uid;
     if (templ) {
         string instName = string(name);
